@@ -80,7 +80,7 @@ class RC:
 
 
 MODULE_TYPES = {"RA": RA, "RB": RB, "RC": RC}
-NAMES = ["default", "a", "b"]
+NAMES = ["default", "a", "b", "2nd", "7"]  # (any \w+ is a legal resource name, also one that is no Python identifier)
 
 
 def gen_signature(rng: Any) -> dict[str, Any]:
@@ -117,7 +117,8 @@ def gen_signature(rng: Any) -> dict[str, Any]:
         inj[0]["late"] = True
         inj[0]["as_string"] = True
     return {"pos": pos, "var_args": rng.random() < 0.3, "kwonly": [f"k{i}" for i in range(rng.randint(0, 2))], "var_kw": rng.random() < 0.3,
-            "inj": inj, "is_async": rng.random() < 0.5, "local_classes": local_classes, "future_annotations": rng.random() < 0.3}
+            "inj": inj, "is_async": rng.random() < 0.5, "local_classes": local_classes, "future_annotations": rng.random() < 0.3,
+            "stacked": (not local_classes) and rng.random() < 0.15}
 
 
 def build_source(sig: dict[str, Any]) -> str:
@@ -161,6 +162,21 @@ def build_source(sig: dict[str, Any]) -> str:
         lines.extend("    " + b for b in body)
         lines.append("    return target, {'RA': RA, 'RB': RB, 'RC': RC}")
         lines.append("target, TYPES = make()")
+    elif sig.get("stacked"):
+        # @inject on top of another decorator that uses functools.wraps: the wrapper itself takes (*args, **kwargs); the
+        # markers and annotations are those of the function it wraps
+        lines.append("import functools")
+        lines.append(head.replace(" target(", " _inner("))
+        lines.extend(body)
+        lines.append("@inject")
+        lines.append("@functools.wraps(_inner)")
+        if sig["is_async"]:
+            lines.append("async def target(*args, **kwargs):")
+            lines.append("    return await _inner(*args, **kwargs)")
+        else:
+            lines.append("def target(*args, **kwargs):")
+            lines.append("    return _inner(*args, **kwargs)")
+        lines.append("TYPES = {'RA': RA, 'RB': RB, 'RC': RC}")
     else:
         lines.append("@inject")
         lines.append(head)
@@ -222,6 +238,8 @@ async def scenario(case: dict[str, Any], out: dict[str, Any]) -> None:
     # resolution follows the order of the parameters in the signature
     ordered_inj = [i for i in sig["inj"] if not i["kwonly"]] + [i for i in sig["inj"] if i["kwonly"]]
 
+    slow = [0.0]  # how long asynchronous factories take (virtual seconds)
+
     def side_effects_of(arg: str) -> None:
         from asphalt.core import current_context
 
@@ -274,7 +292,7 @@ async def scenario(case: dict[str, Any], out: dict[str, Any]) -> None:
             elif state == "async_factory":
                 async def af(key: Any = key, arg: str = i["arg"]) -> Any:
                     factory_calls[key] = factory_calls.get(key, 0) + 1
-                    await anyio.sleep(0)
+                    await anyio.sleep(slow[0])
                     side_effects_of(arg)
                     return Produced(key, factory_calls[key])
 
@@ -463,8 +481,29 @@ async def scenario(case: dict[str, Any], out: dict[str, Any]) -> None:
         await deco_cm.__aexit__(None, None, None)
     else:
         await run_calls()
+    if sig["is_async"] and deco_cm is None and ordered_inj and ordered_inj[0]["state"] == "async_factory":
+        # the caller gives up while the first injected resource is still being generated: exactly as with an explicit
+        # `await get_resource(...)` in its place, the cancellation takes effect there and the function body never runs
+        async with Context(None) as probe_ctx:
+            setup(probe_ctx, False)
+            slow[0] = 5.0
+            n_body = len(body_runs)
+            try:
+                with anyio.move_on_after(1.0) as scope:
+                    await target(*pos_args, **kw_args)
+            except Exception as e:
+                bad("inject-unexpected-exception", f"a call abandoned after 1 virtual second while its first resource takes 5 to generate raised {describe_exc(e)}")
+            else:
+                inc("calls_cancelled_during_a_suspended_lookup")
+                if not scope.cancelled_caught:
+                    bad("inject-differs", "a call whose first resource takes 5 virtual seconds to generate completed although the caller gave up after 1")
+                elif len(body_runs) > n_body:
+                    bad("inject-body-ran", "the function body ran although the call was cancelled while its first injected resource was still being generated")
+            slow[0] = 0.0
     if sig["local_classes"]:
         inc("local_classes")
+    if sig.get("stacked"):
+        inc("inject_stacked_over_a_wraps_decorator")
 
 
 def rejection_matrix(out: dict[str, Any]) -> None:
